@@ -265,6 +265,40 @@ def _truth_atoms(t: Term) -> list[Term]:
     return [t]
 
 
+def _looked_on_every_path(r: Resolver, n, operand: Term) -> list[str]:
+    """Path-sensitive fallback: with the collections of the loops that enclose `n` non-empty (the body runs only then), does every
+    abstract execution from the entry to `n` evaluate a test that examines the operator?"""
+    from ..guards import RoleEval, paths
+    from .common import iter_base
+
+    cfg = r.cfg
+    colls = []
+    for h in cfg.enclosing_loops(n):
+        it = [q for q, _ in h.pred if q.kind == "iter"]
+        if h.kind == "for" and it:
+            colls.append(iter_base(r.term(h.ast.iter, it[0]))[0])  # type: ignore[union-attr]
+    if not colls:
+        return []
+
+    def classify(t: Term, e):
+        return "nonempty" if t in colls else None
+
+    first = [s_ for s_, _ in cfg.entry.succ][0]
+    try:
+        ps = paths(cfg, first, RoleEval(r, classify), {"nonempty": True}, {n})
+    except AnalysisError:
+        return []
+    seen: list[str] = []
+    for pa in ps:
+        if pa[-1] is not n:
+            continue
+        tests = [unparse(m.ast) for m in pa if m.kind == "test" and operand in _truth_atoms(r.term(m.ast, m))]  # type: ignore[arg-type]
+        if not tests:
+            return []
+        seen.append(tests[0])
+    return seen[:1]
+
+
 def dereferences(check: Check) -> None:
     """C1-deref: on the processing path an optional operator is dereferenced only where a dominating condition has looked at it
     (the runtime check that is_ready anticipates) or a default operator stands in for a missing one."""
@@ -294,6 +328,8 @@ def dereferences(check: Check) -> None:
                 sites += 1
                 check.analysed(f)
                 looked = [unparse(g) for g, pol, gn in cfg.must_guards(n) if a in _truth_atoms(r.term(g, gn))]
+                if not looked:
+                    looked = _looked_on_every_path(r, n, a)
                 check.require(bool(looked), "C1-deref", f"{q}/{kind}.{c.func.attr}",
                               f"`{unparse(c)[:50]}` runs only after `{looked[0][:50]}` has examined the {kind} operator" if looked else
                               f"`{unparse(c)[:60]}` uses the {kind} operator without any check and without a default: when the engine does not "
